@@ -147,6 +147,20 @@ def c02_append(ctx):
 def c07_signal(ctx):
     """future_desync / after signal their result once, after the operation's future completed, as the last action of the job."""
     out = []
+    # what signal() itself does: the value it was given goes into the result slot, under the slot's lock, on every path
+    sg = ctx.F.fn('desync::SchedulerFutureSignaller::signal')
+    key = 'signal|stores-the-value'
+    if not sg:
+        out.append(undecided('ORD-C07-signal', key, 'anchor not found'))
+    else:
+        u_ = FieldUse(sg, 'desync::SchedulerFutureResult')
+        stores = [(bb, i, v) for (bb, i, v) in u_.assigns.get('result', [])]
+        H_ = ctx.held(sg)
+        good = [bb for (bb, i, v) in stores if 'SchedulerFuture.result' in H_.held_before(bb, i) and 'Some{' in render(v) and 'Ok{' in render(v) and 'result' in render(v)]
+        if good and sg.must_pass(0, set(sg.exits()), set(good)):
+            out.append(ok('ORD-C07-signal', key, 'signal() stores Some(Ok(value)) in the result slot under its lock on every path', fn=sg.name))
+        else:
+            out.append(bad('ORD-C07-signal', key, 'signal() does not (always) store the value it was given as Some(Ok(value)): the awaiting task is woken without a result, or sees Canceled when the signaller is dropped', fn=sg.name))
     for root in (S + 'future_desync', S + 'after', S + 'future_sync'):
         cors = [f for f in _children(ctx, root) if f.is_coroutine and calls(f, 'SchedulerFutureSignaller::signal')]
         key = short(root)
@@ -987,6 +1001,42 @@ def c17(ctx):
     return out
 
 
+def c10_thread(ctx):
+    """A pool thread runs every job it is handed: SchedulerThread::run sends the job to the thread's channel on every path, and the thread's
+    loop calls each job it receives and then receives again."""
+    F = ctx.F
+    out = []
+    R = 'ORD-C10-thread'
+    g = cg(ctx)
+    run = F.fn('desync::SchedulerThread::run')
+    key = 'SchedulerThread::run|sends'
+    if not run:
+        out.append(undecided(R, key, 'anchor not found'))
+    else:
+        sends = [bb for bb, t in calls(run, 'std::sync::mpsc::Sender::send')]
+        if sends and run.must_pass(0, set(run.exits()), set(sends)):
+            out.append(ok(R, key, 'the job is sent to the thread on every path', fn=run.name))
+        else:
+            out.append(bad(R, key, 'SchedulerThread::run can return without handing the job to its thread: the queue it was meant to run stays Running/Pending with no runner', fn=run.name))
+    bodies = [k for k in _children(ctx, 'desync::SchedulerThread::new') if calls(k, 'std::sync::mpsc::Receiver::recv')]
+    key = 'SchedulerThread|loop-runs-jobs'
+    if len(bodies) != 1:
+        out.append(undecided(R, key, 'thread body (the closure that receives jobs) not found'))
+    else:
+        k = bodies[0]
+        rc = calls(k, 'std::sync::mpsc::Receiver::recv')
+        e = result_edges(k, rc[0][0])
+        okedge = edge_for(e, RESULT, 'Ok') if e else None
+        runs = [s_ for s_ in g.sites.get(k.name, []) if s_.kind == 'param']
+        if okedge is None:
+            out.append(undecided(R, key, 'test of recv() not recognised'))
+        elif len(runs) >= 1 and k.must_pass(okedge, {rc[0][0]} | set(k.exits()), set(s_.bb for s_ in runs)) and rc[0][0] in k.reachable_blocks(okedge):
+            out.append(ok(R, key, 'every received job is called before the next recv()', fn=k.name))
+        else:
+            out.append(bad(R, key, 'the pool thread can take a job from its channel without running it (or stops receiving)', fn=k.name))
+    return out
+
+
 def c10_fetch(ctx):
     """A pool thread reports 'nothing to run' only when the schedule is empty: next_to_run returns None only on the empty edge of
     schedule.pop_front(), and otherwise keeps looking."""
@@ -1297,6 +1347,30 @@ def c12(ctx):
         out.append(bad(R, key, '; '.join(problems), fn=k.name))
     else:
         out.append(ok(R, key, 'each Ready(Some(item)) leads to exactly one push of the completed result before the next poll', fn=k.name))
+    # the answers: a Pending input keeps the pipe (unless the output stream is gone), a full buffer keeps it, the end of the input ends it
+    key = 'pipe|answers'
+    prb = pipe_result_blocks(ctx, k)
+    pending_e = edge_for(e, POLL_ENUM, 'Pending') if e else None
+    if prb is None or pending_e is None:
+        out.append(undecided(R, key, 'the result of the poll function is not a literal keep / stop answer that PipeContext::poll tests'))
+    else:
+        keep_b, stop_b = prb
+        probs2 = []
+        from .ordq import feasible_reach
+        if not (k.reachable_blocks(pending_e) & keep_b):
+            probs2.append('a Pending input never keeps the pipe: it ends at the first moment its input has nothing ready, and the rest of the input is lost')
+        if not k.must_pass(none, set(k.exits()), stop_b) and feasible_reach(k, none, set(k.exits()) | keep_b, stop_b):
+            probs2.append('the end of the input does not end the pipe')
+        bp = [bb for (bb, i, v) in u.assigns.get('backpressure_release_notify', []) if v[0] == 'agg' and v[2].endswith('Option::Some')]
+        for pb in bp:
+            if not k.must_pass(pb, set(k.exits()), keep_b) and feasible_reach(k, pb, set(k.exits()) | stop_b, keep_b):
+                probs2.append('after parking its waker in the back-pressure slot the producer answers "finished": the pipe is torn down while the consumer is merely slow, and the unread input is lost')
+        if not bp:
+            probs2.append('no back-pressure registration found')
+        if probs2:
+            out.append(bad(R, key, '; '.join(probs2), fn=k.name))
+        else:
+            out.append(ok(R, key, 'Pending input -> keep polling; full buffer -> park the waker and keep polling; end of input -> finished', fn=k.name))
     # closed = true only on Ready(None)
     key = 'pipe|closed-at-end'
     cl = [(bb, i) for (bb, i, v) in u.assigns.get('closed', [])]
@@ -1573,6 +1647,7 @@ def _enum_swap_table(fn, enum_path):
         if not written:
             written = set(default)
         table[v['name']] = (written, opt)
+    table['__exchanged__'] = (set(default), set())
     return table
 
 
@@ -1637,6 +1712,8 @@ def c06_drain(ctx):
             out.append(undecided(R, key, 'swap-and-match idiom not recognised'))
             continue
         probs = []
+        if not tab.pop('__exchanged__', (set(), set()))[0]:
+            probs.append('the latch is tested without being exchanged with the protected state (no mem::swap / mem::replace): the decision is made on a constant')
         for var, (kind, val) in need.items():
             w, o = tab.get(var, (set(), set()))
             if kind == 'opt' and val not in o:
